@@ -46,4 +46,5 @@ let () =
         let k = int_of_string len in
         let bs = List.init k (fun _ -> z_of_int 65) in
         print_endline ("OK " ^ String.concat "," (List.map (fun b -> string_of_int (List.length b)) (blocks bs)))
+      | ["K"] -> print_endline ("K " ^ string_of_int (int_of_n kBlockSize))
       | _ -> print_endline "?")
